@@ -64,6 +64,18 @@ def cases(tier, seed):
             # the same height supplied through an input in another unit
             out.append(dict(kind="ref", surfaces=surfs, flow=flow, units=dict(height_agl=["ft", "km", "inch"][(k // 5) % 3]),
                             _cost=1 + np_ ** 2 / 100.0))
+    # low, pitched configurations: a second surface well below and ahead of / behind the origin, pitched so that it still clears the
+    # (tilted) ground plane although its body-axis z lies below -height_agl
+    nlow = 6 if tier == "quick" else 120
+    for k in range(nlow):
+        surfs = rand_surfaces(rng, 2)
+        sx = float(rng.choice([-1.0, 1.0]))
+        surfs[1]["mesh"]["offset"] = [float(np.round(sx * rng.uniform(5, 10), 3)), 0.0, float(np.round(-rng.uniform(0.8, 2.0), 3))]
+        alpha = float(np.round(-sx * rng.uniform(3, 8), 3))
+        h, span = height_for(surfs, alpha, float(rng.uniform(0.02, 0.08)))
+        zmin = min(float(M.build(s_["mesh"])[..., 2].min()) for s_ in surfs)
+        flow = dict(alpha=alpha, beta=0.0, v=50.0, rho=1.0, height_agl=h)
+        out.append(dict(kind="ref", surfaces=surfs, flow=flow, low=bool(zmin < -h), _cost=3))
     nl = 4 if tier == "quick" else 90
     for k in range(nl):
         surfs = rand_surfaces(rng, int(rng.choice([1, 2])))
@@ -96,6 +108,9 @@ def run_ref(c, o):
     flow.update(c["flow"])
     ref = vlmcompare.reference(st, surfaces, flow, ground=True)
     tags = ["nsurf=%d" % len(surfaces)] + (["height_in_" + c["units"]["height_agl"]] if c.get("units") else [])
+    if c.get("low"):
+        tags.append("body_z_below_minus_h")
+        o.count("cases_with_body_z_below_minus_height_agl")
     nz = vlmcompare.compare(o, st, ref, "ground", rtol=1e-9, tags=tags)
     free = vlmcompare.reference(st, surfaces, flow, ground=False)
     eff = np.abs(ref["F"] - free["F"]).max() / np.abs(free["F"]).max()
